@@ -861,12 +861,24 @@ fn main() {
     if let Some(file) = run.replay_file.clone() {
         let doc: Value = serde_json::from_slice(&std::fs::read(&file).expect("replay file")).expect("replay json");
         let text = doc["replay"]["text"].as_str().expect("replay.text").to_string();
-        let case = Case {
-            group: "replay",
-            cell: "replay".into(),
-            text: text.clone(),
-            expect: Expect::Walker,
-        };
+        let group = doc["replay"]["group"].as_str().unwrap_or("").to_string();
+        // find the case again (with its expectation) in the deterministic case list
+        let mut all = Vec::new();
+        for tier in [Tier::Quick, Tier::Thorough] {
+            all.extend(matrix_cases(tier));
+            all.extend(selection_cases());
+            all.extend(plan_cases(tier));
+            all.extend(assert_cases(tier));
+        }
+        let case = all
+            .into_iter()
+            .find(|c| c.text == text && (group.is_empty() || c.group == group))
+            .unwrap_or(Case {
+                group: "replay",
+                cell: "replay".into(),
+                text: text.clone(),
+                expect: Expect::Walker,
+            });
         let out = evaluate(&case);
         println!("replayed {text:?}: accepted={}", out.accepted);
         for (signature, summary) in out.violations {
@@ -919,16 +931,17 @@ fn main() {
             run.distinct(util::fnv64(case.text.as_bytes()));
         }
         for (signature, summary) in out.violations {
-            found.push((signature, case.text.len(), case.text.clone(), case.cell.clone(), summary));
+            found.push((signature, case.text.len(), case.text.clone(), format!("{}|{}", case.group, case.cell), summary));
         }
     }
     // report the shortest input of every signature first (it becomes the replay artefact)
     found.sort();
-    for (signature, _, text, cell, summary) in found {
+    for (signature, _, text, group_cell, summary) in found {
+        let (group, cell) = group_cell.split_once('|').unwrap_or(("", ""));
         run.violation(Violation {
             signature,
             summary,
-            replay: json!({"text": text, "cell": cell}),
+            replay: json!({"text": text, "group": group, "cell": cell}),
         });
     }
     // the matrix must not be vacuous: ordinary names are accepted in every SET / UNSET block
